@@ -42,8 +42,8 @@ VALUES = [
 FULL = list(range(len(VALUES)))
 SUBSET = [3, 4, 6, 7, 8, 11]        # -1, 0, 2^31-1, 2^31, 2^32-1, 2^63
 SUBSET5 = [3, 6, 8, 11]             # -1, 2^31-1, 2^32-1, 2^63 (length 5, thorough)
-NSUB3 = [3, 7, 11]                  # -1, 2^31, 2^63 (name family, length <= 2)
-NSUB2 = [3, 7]                      # -1, 2^31       (name family, length 3)
+NSUB3 = [3, 7, 11]                  # -1, 2^31, 2^63 (name family, length 1; length 2 in the thorough tier)
+NSUB2 = [3, 7]                      # -1, 2^31       (name family, length 3; length 2 in the quick tier)
 LETTERS = "abcdefgh"
 
 # other spellings of non-negative values (the negative / arithmetic ones belong to C09: K09-unsigned-arith)
@@ -73,8 +73,11 @@ FORMS = {
     "field": "struct h{tag} {{ char c; enum {tag} {body} f; }};",
     "fieldanon": "struct h{tag} {{ char c; enum {body} f; }};",
     "func": "enum {tag} {body} f{tag}(void);",
+    "var": "extern enum {tag} {body} v{tag};",
 }
-FORM_CSOURCE = {"func": "enum {tag} {body} f{tag}(void) {{ return (enum {tag})0; }}"}
+# what the C source of the API module says where it cannot be the cdef text (a definition is needed)
+FORM_CSOURCE = {"func": "enum {tag} {body} f{tag}(void) {{ return (enum {tag})0; }}",
+                "var": "enum {tag} {body} v{tag};"}
 FORM_TYPE = {          # how the enum type is named afterwards: (cffi side, C side)
     "tag": ("enum {tag}", "enum {tag}"),
     "tdanon": ("{tag}_t", "{tag}_t"),
@@ -85,12 +88,13 @@ FORM_TYPE = {          # how the enum type is named afterwards: (cffi side, C si
     "field": ("enum {tag}", "enum {tag}"),
     "fieldanon": (("field", "struct h{tag}", "f"), "__typeof__(((struct h{tag} *)0)->f)"),
     "func": ("enum {tag}", "enum {tag}"),
+    "var": ("enum {tag}", "enum {tag}"),
 }
 FORM_STRUCT = {"field": "struct h{tag}", "fieldanon": "struct h{tag}"}
 # ("fieldanon" and "anon" are the ones whose size / signedness come from cffi's own model in API mode: an enum that has a
 # typedef name is measured by the C compiler through that name)
 MAIN_FORMS = ["tdanon", "tdtag", "anon", "field", "fieldanon"]
-MORE_FORMS = ["later", "tdtwo", "func"]
+MORE_FORMS = ["later", "tdtwo", "func", "var"]
 
 # values cast to the enum type for ffi.string(): type minima / maxima of all four candidate types, wrapped casts
 CASTS = [7, -7, 11, -11, 13, -1, 2 ** 31 - 1, 2 ** 31, -2 ** 31, 2 ** 32 - 1, 2 ** 63 - 1, -2 ** 63, 2 ** 64 - 1]
@@ -259,7 +263,7 @@ def enumerate_space(quick):
                 add("form", form, L, s)
     bounds["form"] = "forms %s x all sequences of length <= 2 over the 13 values; forms %s x %s" % (
         MAIN_FORMS, MORE_FORMS,
-        "length <= 2 over the 6-value subset" if quick else "the same; all eight x length 3 over the 6-value subset")
+        "length <= 2 over the 6-value subset" if quick else "the same; all nine x length 3 over the 6-value subset")
 
     # 3. references to constants declared earlier outside the enum, other literal spellings
     xidx = SUBSET if quick else FULL
@@ -277,7 +281,7 @@ def enumerate_space(quick):
                           ", typedef'd anonymous for length 1" if quick else " and typedef'd anonymous"))
 
     # 4. enumerator names
-    for n, alph in ((1, NSUB3), (2, NSUB3)):
+    for n, alph in ((1, NSUB3), (2, NSUB2 if quick else NSUB3)):
         for s in sequences(n, alph):
             for perm in itertools.permutations(range(len(SHAPES)), n):
                 add("names", "tag", ("P", perm), s)
@@ -289,8 +293,8 @@ def enumerate_space(quick):
             if not quick:
                 add("names", "tag", ("S", perm), s)
     bounds["names"] = ("name shapes %s as <tag><shape> and <shape><tag>: every arrangement of 1 / 2 of them x sequences "
-                       "of length 1 / 2 over {-1, 2^31, 2^63}; length 3 over {-1, 2^31}: %s" % (
-                           SHAPES, "the 6 orders of the first three shapes, <tag><shape>" if quick
+                       "of length 1 / 2 over {-1, 2^31, 2^63}%s; length 3 over {-1, 2^31}: %s" % (
+                           SHAPES, " (length 2: {-1, 2^31})" if quick else "", "the 6 orders of the first three shapes, <tag><shape>" if quick
                            else "every arrangement of 3 shapes, both styles"))
 
     # 5. long implicit runs crossing the type boundaries
